@@ -336,3 +336,52 @@ def rear_scripts():
             out.append(REAR_SKELETON % ("raze %s%s" % (who, fr)))
             out.append(REAR_SKELETON % ("rear mo as mine be aux in frame b\n    raze %s%s" % (who, fr)))
     return out
+
+
+# ---- name collisions at resolve time (clone tags, clone full names, aux names) -------------------
+COLLISION_SKELETON = """house box
+framer helper be aux first h1
+  frame h1
+framer other be aux first o1
+  frame o1
+framer moo be moot first m1
+  frame m1
+    aux noo as kid
+framer noo be moot first n1
+  frame n1
+%s
+framer main be active first start
+  frame start
+%s
+    go next
+  frame second
+%s
+  frame third
+%s
+"""
+
+def collision_scripts():
+    """name collisions at resolve time (clone tags / clone full names / aux names)"""
+    out = []
+    def sk(extra, f1, f2, f3=()):
+        ind = lambda ls: "\n".join("    " + l for l in ls)
+        return COLLISION_SKELETON % (extra, ind(f1), ind(f2), ind(f3))
+    A = ["aux helper", "aux other", "aux moo as helper", "aux noo as helper", "aux moo as other", "aux moo as kid",
+         "aux noo as kid", "aux moo as mine", "aux moo as main", "aux moo as moo", "aux helper as helper",
+         "aux moo as main_helper", "aux moo as start", "aux moo", "aux helper if elapsed >= 1.0", "aux moo as helper if elapsed >= 1.0"]
+    # every ordered pair of aux lines: in one frame, in two frames (both orders arise), and split 1/3
+    for a in A:
+        for b in A:
+            out.append(sk("", [a, b], []))
+            out.append(sk("", [a], [b]))
+            out.append(sk("", [a], [], [b]))
+    # clone full name <framer>_<tag> equal to an existing framer / tasker / frame name, declared before or after
+    for tag, nm in [("kid", "main_kid"), ("helper", "main_helper"), ("kid", "moo_kid"), ("kid", "main_kid_kid")]:
+        for kind in ["aux", "moot", "active", "inactive"]:
+            ex = "framer %s be %s first q1\n  frame q1" % (nm, kind)
+            for a in ["aux moo as %s" % tag, "aux noo as %s" % tag]:
+                out.append(sk(ex, [a], []))
+                out.append(sk(ex, [a], ["aux %s" % nm]))
+                out.append(sk(ex, ["aux %s" % nm], [a]))
+                out.append(sk("", [a], []) + ex + "\n")
+    return out
